@@ -1,3 +1,144 @@
+(* C03 entry: selector 1 / 101-103 are the shared cycle entry (action skeleton); the selectors
+   below are the queue votes of the capacity / proportion plugins (CapacityModel.v).
+
+   correspondence
+     2   capacity plugin (flat or hierarchical: flag in the input)
+     3   proportion plugin
+   laws (input carries the implementation's answers)
+     110 Allocatable = true  => Open, leaf, allocated (+reserved) + request <= limit along the chain
+     111 JobEnqueueable = true => Open, leaf, minResources + allocated + inqueue - elastic <= realCapability
+     112 Preemptive / Overused consistency
+     113 Allocatable = true  => allocated + request <= spec.capability (queue and ancestors)
+     114 JobEnqueueable = true => minResources + allocated + inqueue - elastic <= spec.capability
+
+   wire format of a vote case (sel 2 / 3):
+     L  (L tokens: the cluster spec the Go side rebuilt the session from; skipped here)
+     eps hier ready
+     phases: list of ( records: list qrecord ; reserved: list (queue, res) ; queries: list query )
+     qrecord := id open alloc inqueue elastic deserved (opt realCapability) (list ancestor) children
+     query   := 1 q req | 2 q | 3 q (list req) | 4 q (opt minResources)
+   output: per phase -101, then per query  -(110 + kind)  answer. *)
+From stdpp Require Import gmap.
 From Coq Require Import ZArith List.
-From V Require Import Sched.CycleEntry.
-Definition entry := cycle_entry.
+From V Require Import Base.Codec Base.Res Base.ResCodec Sched.CycleEntry C03.CapacityModel.
+Import ListNotations.
+Open Scope Z_scope.
+
+Definition dSkip : dec unit :=
+  let* n := dNat in
+  fun l => if (length l <? n)%nat then None else Some (tt, skipn n l).
+
+Definition dQrec : dec (positive * qrec) :=
+  let* id := dPos in let* o := dBool in let* al := dRes in let* iq := dRes in let* el := dRes in
+  let* de := dRes in let* rc := dOpt dRes in let* an := dList dPos in let* ch := dNat in
+  ret (id, mkQrec o al iq el de rc an ch).
+
+Inductive query :=
+| QAlloc (q : positive) (req : res)
+| QOver (q : positive)
+| QPreempt (q : positive) (reqs : list res)
+| QEnq (q : positive) (minres : option res).
+
+Definition dQuery : dec query :=
+  let* k := dZ in
+  match k with
+  | 1 => let* q := dPos in let* r := dRes in ret (QAlloc q r)
+  | 2 => let* q := dPos in ret (QOver q)
+  | 3 => let* q := dPos in let* l := dList dRes in ret (QPreempt q l)
+  | 4 => let* q := dPos in let* m := dOpt dRes in ret (QEnq q m)
+  | _ => fail
+  end.
+
+Definition reserved_of (l : list (positive * res)) : positive -> res :=
+  let m : gmap positive res := list_to_map l in fun a => default empty_res (m !! a).
+
+Record phase := mkPhase { ph_qs : qmap; ph_reserved : positive -> res; ph_queries : list query }.
+
+Definition dPhase : dec phase :=
+  let* rs := dList dQrec in let* rv := dList (dPair dPos dRes) in let* qs := dList dQuery in
+  ret (mkPhase (list_to_map rs) (reserved_of rv) qs).
+
+Definition dVoteCase : dec (Z * bool * bool * list phase) :=
+  let* _ := dSkip in let* eps := dZ in let* hier := dBool in let* ready := dBool in
+  let* ps := dList dPhase in ret (eps, hier, ready, ps).
+
+Definition query_tag (q : query) : Z :=
+  match q with QAlloc _ _ => -111 | QOver _ => -112 | QPreempt _ _ => -113 | QEnq _ _ => -114 end.
+
+Definition answer_cap (eps : Z) (hier ready : bool) (p : phase) (q : query) : bool :=
+  match q with
+  | QAlloc a r => cap_allocatable hier ready (ph_qs p) (ph_reserved p) a r
+  | QOver _ => cap_overused
+  | QPreempt a l => cap_preemptive eps ready (ph_qs p) a l
+  | QEnq a m => vote_to_bool (cap_enqueueable hier ready (ph_qs p) a m)
+  end.
+
+Definition answer_prop (eps : Z) (p : phase) (q : query) : bool :=
+  match q with
+  | QAlloc a r => prop_allocatable (ph_qs p) a [r]
+  | QOver a => prop_overused eps (ph_qs p) a
+  | QPreempt a l => prop_preemptive (ph_qs p) a l
+  | QEnq a m => vote_to_bool (prop_enqueueable (ph_qs p) a m)
+  end.
+
+Definition run_votes (ans : phase -> query -> bool) (ps : list phase) : list Z :=
+  flat_map (fun p => -101 :: flat_map (fun q => query_tag q :: eBool (ans p q)) (ph_queries p)) ps.
+
+(* ---- law inputs:  kind eps caps, then per phase: records reserved observations ---- *)
+Definition dKind : dec pkind :=
+  let* k := dZ in match k with 1 => ret KFlat | 2 => ret KHier | 3 => ret KProp | _ => fail end.
+
+Definition dObs : dec (query * bool) := let* q := dQuery in let* a := dBool in ret (q, a).
+
+Record law_in := mkLawIn { li_kind : pkind; li_eps : Z; li_qs : qmap; li_reserved : positive -> res;
+                           li_caps : gmap positive res; li_obs : list (query * bool) }.
+
+Definition dLawPhase (k : pkind) (eps : Z) (cs : gmap positive res) : dec law_in :=
+  let* rs := dList dQrec in let* rv := dList (dPair dPos dRes) in let* ob := dList dObs in
+  ret (mkLawIn k eps (list_to_map rs) (reserved_of rv) cs ob).
+
+(* kind eps caps phases *)
+Definition dLawIn : dec (list law_in) :=
+  let* k := dKind in let* eps := dZ in let* cs := dList (dPair dPos dRes) in
+  dList (dLawPhase k eps (list_to_map cs)).
+
+Definition law_110 (x : law_in) : bool :=
+  forallb (fun o => match o with
+                    | (QAlloc q r, a) => law_alloc_one (li_kind x) (li_qs x) (li_reserved x) q r a
+                    | _ => true end) (li_obs x).
+Definition law_111 (x : law_in) : bool :=
+  forallb (fun o => match o with
+                    | (QEnq q m, a) => law_enq_one (li_kind x) (li_qs x) q m a
+                    | _ => true end) (li_obs x).
+Definition law_112 (x : law_in) : bool :=
+  forallb (fun o => match o with
+                    | (QPreempt q l, a) => law_preemptive_one (li_kind x) (li_qs x) q l a
+                    | (QOver q, a) => law_overused_one (li_eps x) (li_kind x) (li_qs x) q a
+                    | _ => true end) (li_obs x).
+Definition law_113 (x : law_in) : bool :=
+  forallb (fun o => match o with
+                    | (QAlloc q r, a) => law_alloc_cap_one (li_kind x) (li_qs x) (li_caps x) q r a
+                    | _ => true end) (li_obs x).
+Definition law_114 (x : law_in) : bool :=
+  forallb (fun o => match o with
+                    | (QEnq q m, a) => law_enq_cap_one (li_kind x) (li_qs x) (li_caps x) q m a
+                    | _ => true end) (li_obs x).
+
+Definition law_entry (f : law_in -> bool) (toks : list Z) : list Z :=
+  match run_dec dLawIn toks with Some xs => eBool (forallb f xs) | None => bad_input end.
+
+Definition entry (sel : Z) (toks : list Z) : list Z :=
+  match sel with
+  | 2 => match run_dec dVoteCase toks with
+         | Some (eps, hier, ready, ps) => run_votes (answer_cap eps hier ready) ps
+         | None => bad_input end
+  | 3 => match run_dec dVoteCase toks with
+         | Some (eps, _, _, ps) => run_votes (answer_prop eps) ps
+         | None => bad_input end
+  | 110 => law_entry law_110 toks
+  | 111 => law_entry law_111 toks
+  | 112 => law_entry law_112 toks
+  | 113 => law_entry law_113 toks
+  | 114 => law_entry law_114 toks
+  | _ => cycle_entry sel toks
+  end.
